@@ -89,7 +89,7 @@ CHECKS = {
                 text="Straight-line, if (taken / skipped), counted loop, loop exiting to a label just past the end, branch to end, if-in-loop, "
                      "measure-then-if and mov-with-alloc/free skeletons, filled with every gate group [set Q0 a; (set Q1 b;) g] for "
                      "g in {h,x,t,rot_y,cnot,cphase} and every placement over ids {0,1,2}, with the qubit register written by set or by "
-                     "load from an array, debug False and True, plus two two-qubit gates on all 36 pairs of register pairs over Q0..Q2 "
+                     "load from an array, debug False and True, loops and jumps whose target is line 0, 2..24 carbon-carbon gates written out in one subroutine, plus two two-qubit gates on all 36 pairs of register pairs over Q0..Q2 "
                      "(straight, loop, if-in-loop, and with a third register written between the gates and used after them), are transpiled by the real NVSubroutineTranspiler, serialised and "
                      "deserialised with the NV flavour, and run on the independent reference VM from a basis, a product and an "
                      "entangled initial state under every measurement script: named registers, arrays, allocation and the full state "
